@@ -37,8 +37,8 @@ func c09Families(quick bool) c09Params {
 	return c09Params{
 		fams: []family{
 			{Name: "error", Space: gen.NewSpace(2, 2, 2, 2, true)},
-			{Name: "error-l3", Space: gen.NewSpace(2, 2, 2, 3, true), Limit: 2000000},
-			{Name: "error3", Space: gen.NewSpace(3, 2, 2, 2, true), Limit: 2000000},
+			{Name: "error-l3", Space: gen.NewSpace(2, 2, 2, 3, true), Limit: 600000},
+			{Name: "error3", Space: gen.NewSpace(3, 2, 2, 2, true), Limit: 600000},
 			{Name: "error-sugar", Space: gen.NewSpace(2, 2, 2, 2, true), Sugar: true, Limit: 60000},
 		},
 		L: 6, Lpump: 4, Ks: []int{2, 8, 50}, Hooked: true,
